@@ -4,6 +4,8 @@
 // Verification hook for property C19 (DR auto-sync). Exports only; compiled only with -tags verif.
 package replication
 
+import "time"
+
 // VerifC19TickDR runs one tick of the DR state machine (the public Run waits a minute before its first tick).
 func (m *ModeManager) VerifC19TickDR() { m.tickDR() }
 
@@ -17,3 +19,9 @@ func (m *ModeManager) VerifC19Cursor() (key []byte, count int) {
 // VerifC19ScanSizes exposes the two package variables that size the recovery scan, so that a harness can
 // lower them and exercise more than one scan batch with a handful of regions.
 func VerifC19ScanSizes() (batch *int, minSample *int) { return &regionScanBatchSize, &regionMinSampleSize }
+
+// VerifC19Clock exposes the clock inputs of drCheckAsyncTimeout: the manager's creation time and the members' last
+// confirmation times, so that a harness can place them relative to time.Now().
+func (m *ModeManager) VerifC19Clock() (initTime *time.Time, members map[uint64]time.Time) {
+	return &m.initTime, m.drMemberWaitAsyncTime
+}
